@@ -184,6 +184,42 @@ theorem C17_agent_disconnect_clean (a : Agent) (hca : a.cleanAll = true)
   · exact key _ h2
   · exact key _ h3
 
+/-- **UDP_CLOSE always reaches the relay table**, whatever exit-side associations this agent holds
+    under the same stream id: the relayed association's entry is popped (so it cannot stay behind once
+    the tunnel is closed). -/
+theorem pop_none_same (t : Table) (id peer : Nat) (h : (t.popMatchingPeer id peer).2 = none) :
+    (t.popMatchingPeer id peer).1 = t := by
+  unfold popMatchingPeer at h ⊢
+  split
+  · split
+    · simp_all
+    · split
+      · split
+        · simp_all
+        · rfl
+      · rfl
+  · split
+    · split
+      · simp_all
+      · rfl
+    · rfl
+
+theorem C17_udp_close_pops_relay (a : Agent) (peer id : Nat) :
+    (a.udpClose peer id).1.udp = (a.udp.popMatchingPeer id peer).1 := by
+  unfold Agent.udpClose Agent.relayClose
+  simp only [Agent.table]
+  cases h : a.udp.popMatchingPeer id peer with
+  | mk t r =>
+    cases r with
+    | none =>
+      have := pop_none_same a.udp id peer (by rw [h])
+      rw [h] at this
+      have ht : t = a.udp := this
+      simp [ht]
+    | some eb =>
+      obtain ⟨e, b⟩ := eb
+      cases b <;> simp [Agent.setTable]
+
 /-- The pinned `cleanupRelaysForPeer` (TCP table only): a relayed UDP association of a vanished peer
     stays in `udpRelay` for ever. -/
 theorem C17_pinned_udp_leak :
